@@ -212,3 +212,96 @@ func c05d05NoBoundary(ctx *Ctx, scope *[]string) {
 		c05PrefixCase(ctx, p, cs)
 	}
 }
+
+// c05d05With: the same receiver and calls through the other entry points of unknown_refinement.go:
+// v.RefineWith(refiners...) with the calls split over 0..n refiner callbacks (one of which may return a builder
+// other than the one it was given), and v.RefineNotNull().  Correspondence ops rfn.with / rfn.nn.
+func c05d05With(ctx *Ctx, recv c05Recv, calls []c05Call) {
+	r := ctx.R
+	// split the calls into consecutive groups (possibly empty ones)
+	var groups [][]c05Call
+	rest := calls
+	if len(calls) > 0 || r.Intn(3) > 0 {
+		for {
+			k := 0
+			if len(rest) > 0 {
+				k = r.Intn(len(rest) + 1)
+			}
+			groups = append(groups, rest[:k])
+			rest = rest[k:]
+			if len(rest) == 0 && r.Intn(2) == 0 {
+				break
+			}
+			if len(groups) > 6 {
+				groups[len(groups)-1] = append(groups[len(groups)-1], rest...)
+				break
+			}
+		}
+	}
+	other := -1
+	if len(groups) > 0 && r.Intn(8) == 0 {
+		other = r.Intn(len(groups))
+	}
+	var refiners []func(*cty.RefinementBuilder) *cty.RefinementBuilder
+	ws := make([]string, len(groups))
+	for i, g := range groups {
+		g, i := g, i
+		refiners = append(refiners, func(b *cty.RefinementBuilder) *cty.RefinementBuilder {
+			for _, c := range g {
+				c.apply(b)
+			}
+			if i == other {
+				return cty.UnknownVal(cty.Bool).Refine()
+			}
+			return b
+		})
+		ws[i] = "(" + encBool(i != other) + " " + c05Wires(g) + ")"
+	}
+	var res cty.Value
+	impl := "panic"
+	if p, _ := try(func() { res = recv.v.RefineWith(refiners...) }); !p {
+		impl = "ok " + encVal(res) + " " + c05Observers(res)
+	}
+	ctx.Add("rfn.with", impl, encVal(recv.v), "("+joinSp(ws)+")")
+	switch {
+	case len(groups) == 0:
+		ctx.Tag("d05:refinewith:no-refiner")
+	case other >= 0:
+		ctx.Tag("d05:refinewith:different-builder")
+		if impl != "panic" {
+			ctx.Fail(Failure{Site: "refinewith", Sig: "different-builder-accepted", What: "RefineWith accepted a refiner that returned a different builder",
+				Input: encVal(recv.v) + " (" + joinSp(ws) + ")", GoLit: recv.lit + ".RefineWith(/* refiner " + fmt.Sprint(other) + " returns another builder */)", Outcome: impl})
+		}
+	default:
+		ctx.Tag(fmt.Sprintf("d05:refinewith:%d-refiners", len(groups)))
+		// C05.refineWith_is_refine on the real code: the same outcome as the builder chain
+		res2, panicAt, _ := c05Run(recv.v, calls)
+		want := "panic"
+		if panicAt == -1 {
+			want = "ok " + encVal(res2) + " " + c05Observers(res2)
+		}
+		ctx.Eval("refinewith "+encVal(recv.v)+" "+joinSp(ws), len(calls) > 0)
+		if want != impl {
+			ctx.Fail(Failure{Site: "refinewith", Sig: "differs-from-builder-chain", What: "RefineWith(refiners...) differs from Refine().<the same calls>.NewValue()",
+				Input: encVal(recv.v) + " (" + joinSp(ws) + ")", GoLit: c05Lit(recv.lit, calls) + " // vs RefineWith over the same calls", Outcome: impl + " vs " + want})
+		}
+	}
+	if r.Intn(4) == 0 {
+		implNN := "panic"
+		if p, _ := try(func() { res = recv.v.RefineNotNull() }); !p {
+			implNN = "ok " + encVal(res) + " " + c05Observers(res)
+		}
+		ctx.Add("rfn.nn", implNN, encVal(recv.v))
+	}
+}
+
+func joinSp(ws []string) string {
+	s := ""
+	for i, w := range ws {
+		if i > 0 {
+			s += " "
+		}
+		s += w
+	}
+	return s
+}
